@@ -61,6 +61,30 @@ fn get_doc_comment_for_parameter(parameter: &GrammarParameter) -> Option<DocComm
         })
 }
 
+/// Returns a [`DocComment`] describing the provided return member if one is present.
+///
+/// Like parameters, return members can't have doc-comments of their own. Instead, they're described by '@returns' tags
+/// applied to their enclosing operation: a tag without an identifier describes a single (unnamed) return type,
+/// and a tag with an identifier describes the member of a return tuple with that identifier.
+fn get_doc_comment_for_return_member(return_member: &GrammarParameter) -> Option<DocComment> {
+    let operation = return_member.parent();
+    let operation_comment = operation.comment()?;
+
+    // A single return type is given a dummy identifier by the parser, but it's described by an unnamed '@returns' tag.
+    let is_single_return = operation.return_type.len() == 1 && return_member.identifier.span == return_member.span;
+
+    operation_comment.returns.iter()
+        .find(|returns_tag| match &returns_tag.identifier {
+            Some(tag_identifier) => !is_single_return && tag_identifier.value == return_member.identifier(),
+            None => is_single_return,
+        })
+        .map(|returns_tag| returns_tag.message.value.iter().map(Into::into).collect())
+        .map(|message| DocComment {
+            overview: message,
+            see_tags: Vec::new(),
+        })
+}
+
 /// Helper function to convert the result of `tag.linked_entity()` into an [`EntityId`].
 fn convert_doc_comment_link(link_result: Result<&dyn Entity, &GrammarIdentifier>) -> EntityId {
     match link_result {
@@ -260,7 +284,7 @@ impl SliceFileContentsConverter {
                 .parameters
                 .last()
                 .is_some_and(|parameter| parameter.borrow().is_streamed),
-            return_type: operation.return_members().into_iter().map(|e| self.convert_parameter(e)).collect(),
+            return_type: operation.return_members().into_iter().map(|e| self.convert_return_member(e)).collect(),
             has_streamed_return: operation
                 .return_type
                 .last()
@@ -280,6 +304,13 @@ impl SliceFileContentsConverter {
             tag: parameter.tag.as_ref().map(|integer| integer.value as i32),
             data_type: self.convert_type_ref(parameter.data_type()),
         }
+    }
+
+    fn convert_return_member(&mut self, return_member: &GrammarParameter) -> Field {
+        // Return members are converted just like parameters, except that their documentation comes from '@returns' tags.
+        let mut converted = self.convert_parameter(return_member);
+        converted.entity_info.comment = get_doc_comment_for_return_member(return_member);
+        converted
     }
 
     // This returns a `Symbol` because the `enum` grammar construct can map to either a `BasicEnum` or a `VariantEnum`.
